@@ -149,7 +149,7 @@ func distinctKeys(a, b *kp) string {
 
 func TestKeyRoundTrip(t *testing.T) {
 	name := t.Name()
-	hx.Check(t, 600, 40000, 0, func(rt *rapid.T) {
+	hx.Check(t, 1500, 40000, 0, func(rt *rapid.T) {
 		k := drawKey(rt, "k")
 		o := drawKey(rt, "other")
 		msg := drawBytes(rt, "msg", true)
@@ -191,7 +191,7 @@ func verifies(pub ic.PubKey, msg, sig []byte) bool {
 
 func TestSignVerify(t *testing.T) {
 	name := t.Name()
-	hx.Check(t, 1000, 80000, 0, func(rt *rapid.T) {
+	hx.Check(t, 3000, 80000, 0, func(rt *rapid.T) {
 		k := drawKey(rt, "k")
 		msg := drawBytes(rt, "msg", true)
 		sig, err := k.priv.Sign(msg)
@@ -471,7 +471,7 @@ func drawKeyCandidate(rt *rapid.T, k *kp, m []byte, private bool) mutation {
 
 func TestKeyMutation(t *testing.T) {
 	name := t.Name()
-	hx.Check(t, 1200, 120000, 0, func(rt *rapid.T) {
+	hx.Check(t, 4000, 120000, 0, func(rt *rapid.T) {
 		k := drawKey(rt, "k")
 		private := rapid.Bool().Draw(rt, "private")
 		msg := []byte("c08 key mutation " + k.tag)
@@ -521,7 +521,7 @@ func TestKeyMutation(t *testing.T) {
 func TestKeyEveryPosition(t *testing.T) {
 	name := t.Name()
 	idx := 0
-	for ti, typ := range keyTypes {
+	for ti, typ := range sweepTypes(hx.Pick(1, 3)) {
 		k := freshKey(typ, uint64(4242+ti))
 		msg := []byte("c08 sweep " + k.tag)
 		sig, err := k.priv.Sign(msg)
@@ -580,4 +580,13 @@ func TestKeyEveryPosition(t *testing.T) {
 			}
 		}
 	}
+}
+
+// sweepTypes lists the key types n times (n sample keys per type in the sweeps).
+func sweepTypes(n int) []string {
+	var out []string
+	for i := 0; i < n; i++ {
+		out = append(out, keyTypes...)
+	}
+	return out
 }
